@@ -28,6 +28,7 @@ func CISymbolic()
 func Trimpath(on bool)
 func Freeze(p any, what string)
 func Shared(p any)
+func SharedGlobals(prefix string)
 func FrameFile(name string)
 func Symbolic() bool
 func Stdout() string
